@@ -31,13 +31,14 @@ RPTID_W = [6, 5, 5, 1, 1]
 # (1, 2 predefined, 60, "ec-t"), alarm 70, collection events 50 / "ce-t", report ids ("r-t"; 1 and 2 are also RPTIDs/CEIDs), a remote command
 FOREIGN = ["n1", "n2", "n60", "t" + gemlib.hexs("ec-t"), "n70", "n50", "t" + gemlib.hexs("ce-t"), "t" + gemlib.hexs("r-t"), "t" + gemlib.hexs("START")]
 VIDS = ["n30", "n31", "t" + gemlib.hexs("sv-t"), "n1003", "n99", "n30.30", "n"] + FOREIGN  # SV 30, DV 31, SV "sv-t", EventsEnabled, unknown, …
-VID_W = [6, 5, 4, 3, 2, 1, 1] + [2, 2, 1, 1, 1, 1, 1, 1, 1]
-VID_TAME = [12, 10, 8, 6, 0, 0, 0] + [2, 2, 1, 1, 1, 0, 0, 0, 0]
+VIDS.append("n32")
+VID_W = [6, 5, 4, 3, 2, 1, 1] + [2, 2, 1, 1, 1, 1, 1, 1, 1] + [5]
+VID_TAME = [12, 10, 8, 6, 0, 0, 0] + [2, 2, 1, 1, 1, 0, 0, 0, 0] + [10]
 SV_CELLS = {"n30": "n0", "t" + gemlib.hexs("sv-t"): "n0", "n1001": "t" + gemlib.hexs(CLOCK), "n1002": "n3", "n1004": "l", "n1005": "l"}
-DV_CELLS = {"n31": "t"}
+DV_CELLS = {"n31": "t", "n32": "n1.2"}        # DV 32 holds a LIST (U4 array), updated in place as well as re-assigned
 CFG = ("C" + ",".join(["n1", "n2", "n3", "n20", "n21", "n50", "t" + gemlib.hexs("ce-t")])
        + ";S" + ",".join(f"{k}:c" for k in ["n1001", "n1002", "n1004", "n1005", "n30", "t" + gemlib.hexs("sv-t")]) + ",n1003:e"
-       + ";Dn31")
+       + ";Dn31,n32")
 
 
 def weighted(rng, xs, ws):
@@ -124,6 +125,8 @@ def gen_op(rng, state):
         return "T" + ",".join(rng.choice(pool) for _ in range(rng.choice([1, 2, 2, 3, 3, 4])))
     if k < 96:
         return ("Vn30=n" + str(rng.range(0, 9))) if rng.chance(1, 2) else ("Vt" + gemlib.hexs("sv-t") + "=n" + str(rng.range(0, 9)))
+    if rng.chance(1, 2):
+        return "Wn32=n" + ".".join(str(rng.range(0, 9)) for _ in range(rng.range(1, 3)))
     return "Wn31=t" + gemlib.hexs(rng.choice(["", "a", "xyz"]))
 
 
@@ -156,6 +159,8 @@ class Run:
         h.status_variables["sv-t"] = secsgem.gem.StatusVariable("sv-t", "svt", "u", V.U4, use_callback=False)
         h.data_values[31] = secsgem.gem.DataValue(31, "dv31", V.String)
         h.data_values[31].value = ""
+        h.data_values[32] = secsgem.gem.DataValue(32, "dv32", V.U4, use_callback=False)
+        h.data_values[32].value = [1, 2]
         h.collection_events[50] = secsgem.gem.CollectionEvent(50, "ce50", [])
         h.collection_events["ce-t"] = secsgem.gem.CollectionEvent("ce-t", "cet", [])
         # ids of the other id spaces (never variables): equipment constants, an alarm
@@ -248,7 +253,23 @@ class Run:
             self.values[k] = v
             i = parse_id(k)
             key = i[1][0] if i[0] == "n" else i[1]
-            if kind == "W":
+            if kind == "W" and key == 32:
+                new = [int(x) for x in v[1:].split(".")]
+                self.nform += 1
+                cur = h.data_values[32].value
+                if self.nform % 3 == 0:
+                    h.data_values[32].value = new           # a new list object
+                elif self.nform % 3 == 1:
+                    cur[:] = new                            # the SAME list object, changed in place
+                else:
+                    while len(cur) > len(new):              # ... element by element: pop / item assignment / append
+                        cur.pop()
+                    for j_, x_ in enumerate(new):
+                        if j_ < len(cur):
+                            cur[j_] = x_
+                        else:
+                            cur.append(x_)
+            elif kind == "W":
                 h.data_values[key].value = bytes.fromhex(v[1:]).decode("latin-1")
             elif key not in (1001, 1002, 1004, 1005):
                 h.status_variables[key].value = int(v[1:])
@@ -440,6 +461,72 @@ def run_history(ops, salt, direct, gen=None):
         run.close()
 
 
+# ---------------------------------------------------------------------------------------------- re-entrancy (direct oracle only)
+class ReentrantEq(secsgem.gem.GemEquipmentHandler):
+    """the library's handler; its value callback for SVID 30, when armed, handles an S2F33 delete of ANOTHER report of the same
+    event while the data of an earlier report is being collected (a host request arriving in the middle of a report build)"""
+
+    armed = None      # (Equipment, RPTID to delete)
+
+    def on_sv_value_request(self, svid, sv):
+        if self.armed is not None and sv.svid == 30:
+            (eq, rpt), self.armed = self.armed, None
+            self._on_s02f33(self, eq.message(2, 33, {"DATAID": 1, "DATA": [{"RPTID": rpt, "VID": []}]}))
+        return super().on_sv_value_request(svid, sv)
+
+
+def reentrancy_section(res):
+    """Not in the Lean model (the model's operations are atomic).  Property: whatever happens to the configuration while an event
+    report is being built, the report that goes out is well formed and holds the reports that remain linked, in link order."""
+    variants = [   # (reports to define, link list of CEID 50, report deleted during the build of report 1, reports expected)
+        ([1, 2], [1, 2], 2, [1]),
+        ([1, 2, 3], [1, 2, 3], 3, [1, 2]),
+        ([1, 2, 3], [1, 2, 3], 2, [1, 3]),
+        ([1, 2], [1, 2, 2], 2, [1]),
+    ]
+    for how in ("trigger", "s6f15-full", "s6f15-direct"):
+        for defined, linked, victim, expect in variants:
+            eq = gemlib.Equipment(ReentrantEq)
+            h = eq.h
+            try:
+                h.status_variables[30] = secsgem.gem.StatusVariable(30, "sv30", "u", V.U4)
+                h.status_variables[30].value = 7
+                h.data_values[31] = secsgem.gem.DataValue(31, "dv31", V.String)
+                h.data_values[31].value = "x"
+                h.collection_events[50] = secsgem.gem.CollectionEvent(50, "ce50", [])
+                vids = {1: [30], 2: [31], 3: [31, 31]}
+                for s_, f_, val in ((2, 33, {"DATAID": 1, "DATA": [{"RPTID": r, "VID": vids[r]} for r in defined]}),
+                                    (2, 35, {"DATAID": 1, "DATA": [{"CEID": 50, "RPTID": linked}]}), (2, 37, {"CEED": True, "CEID": [50]})):
+                    ans = eq.request(s_, f_, val, True)
+                    if ans[2] != ("B", [0]):
+                        raise RuntimeError(f"re-entrancy setup S{s_}F{f_} refused: {ans}")
+                h.armed = (eq, victim)
+                case = {"how": how, "defined": defined, "linked": linked, "deleted_during_build": victim}
+                want = "rn50[" + ";".join(f"n{r}(" + ",".join("n7" if v == 30 else "t78" for v in vids[r]) + ")" for r in expect) + "]"
+                if how == "trigger":
+                    eq.c.primaries.clear()
+                    h.trigger_collection_events([50])
+                    errs = THREADS.join_all()
+                    sent = [p for p in eq.c.primaries if p[:2] == (6, 11)]
+                    got = "|".join(Run.show_report(gemlib.decode_body(p[2])) for p in sent) + ("!" if errs else "") or "-"
+                else:
+                    s_, f_, body = eq.request(6, 15, 50, how.endswith("direct"))
+                    got = "x" if f_ == 0 else Run.show_report(body)
+                res.count(("reentrant", how, tuple(linked), victim), sample=dict(case, got=got) if len(res.samples) < 6 else None)
+                res.bump("reentrant", how + ":" + ("ok" if got == want else got[:12]))
+                if h.armed is not None:
+                    raise RuntimeError("re-entrancy scenario: the value callback was not reached")
+                if got != want:
+                    res.violate("reentrant-delete", f"report {victim} deleted while the event report of CEID 50 was being built: got {got}, "
+                                f"the reports that remain linked, with current values, are {want}", case, want, got)
+                rest_ok = [cid(k.get()) for k in h.registered_reports] == [f"n{r}" for r in defined if r != victim] and \
+                    [cid(r) for r in h.registered_collection_events[50].reports] == [f"n{r}" for r in linked if r != victim]
+                if not rest_ok:
+                    res.violate("reentrant-delete", "configuration after the re-entrant delete is not: report gone from the table and from the link", case)
+            finally:
+                eq.close()
+
+
 PREFIX = [f"V{k}={v}" for k, v in SV_CELLS.items()] + [f"W{k}={v}" for k, v in DV_CELLS.items()]
 
 
@@ -486,6 +573,8 @@ def main():
              "Rn2=n30,n31", "Ln50=n2", "E1:", "Qn50", "Tn50,n50"],
             # one S2F35 with several events: an already linked CEID first, then an unlinked CEID naming a report the first one holds
             ["Rn1=n30;n2=n31", "Ln1=n1", "Ln1=n2;n50=n1", "Ln50=n2;n1=n1", "Lt" + gemlib.hexs("ce-t") + "=n1,n2;n50=n2", "E1:", "Qn50", "Tn1,n50"],
+            # a list-valued data value changed in place between event reports
+            ["Rn1=n32,n30", "Ln50=n1", "E1:", "Qn50", "Wn32=n7.8.9", "Qn50", "Tn50", "Wn32=n4", "Tn50", "Wn32=n4.5", "Qn50", "Wn32=n6.5", "Tn50,n50"],
             # one trigger call over enabled / disabled / unlinked / unknown CEIDs in every position, with repeats
             ["Rn1=n30;n2=n31", "Ln1=n1;n50=n2,n1;t" + gemlib.hexs("ce-t") + "=n2", "E1:n1,n50", "Tn1,t" + gemlib.hexs("ce-t") + ",n50",
              "Tt" + gemlib.hexs("ce-t") + ",n1", "Tn99,n50,n2,n1", "Tn50,n50", "E0:n1", "Tn1,n50,n1", "Tn1", "Tn2,n99"],
@@ -498,6 +587,9 @@ def main():
         for i in range(n_hist):
             n = rng.range(1, max_len) if rng.chance(1, 3) else max_len
             cases.append(([], rng.below(1000), not rng.chance(1, 3), (rng.fork(f"h{i}"), n)))
+
+    if not a.replay:
+        reentrancy_section(res)
 
     lines, impls, metas = [], [], []
     for ops, salt, direct, gen in cases:
